@@ -68,7 +68,9 @@ def gen_case(rng, idx):
     if op == "lwe_sk":
         case["nl"] = rng.choice([1, 3, 7, 8, 15, 22, 31])
         case["rank"] = 0
-        case["dist"] = gen_dist(rng, case["nl"]) if not case["dist"].startswith("bb") else "bb:1"
+        case["dist"] = gen_dist(rng, case["nl"])
+        if case["dist"].startswith("bb"):
+            case["dist"] = "bb:" + str(rng.choice([d for d in (1, 2, 3, 4, 5, 7, 8, 11, 31) if case["nl"] % d == 0]))
         case["pt"] = gen_message(rng, 1, b, psize, cls)
     else:
         case["pt"] = gen_message(rng, n, b, psize, cls)
@@ -226,10 +228,79 @@ def oracle(c, a):
         d, m = torus_dist(dv, db * ds, phs[t], b * size)
         if d > (1 << (b * size)):
             return f"decryption differs from the phase by {d}/2^{m} > one unit 2^-{db * ds} at coefficient {t}"
-    lo, hi = -(1 << (db - 1)), (1 << (db - 1)) - 1
-    if any(x < lo or x > hi for l in dec for x in l):
-        return "decrypted plaintext has an un-normalised digit"
     return None
+
+
+def unnormalised(c, a):
+    """digits of the decrypted plaintext outside [-2^(db-1), 2^(db-1)) (not part of C01's statement;
+    counted, and reported to the C08 slice: only the cross-radix normalisation produces them)"""
+    dec = parse_col(a["dec"])
+    db = c["db"]
+    lo, hi = -(1 << (db - 1)), (1 << (db - 1)) - 1
+    return sum(1 for l in dec for x in l if x < lo or x > hi)
+
+
+def mismatch_probe(ctx, binp, rng, count):
+    """plaintext whose base2k differs from the ciphertext's: the statement demands the message at the
+    plaintext's own position; sk paths ignore pt.base2k (recorded finding), the pk path asserts."""
+    cases = []
+    for i in range(count):
+        c = gen_case(rng, 10 ** 6 + i)
+        if c["op"] == "glwe_zero_sk":
+            c["op"] = "glwe_sk"
+        ptb = c["b"]
+        while ptb == c["b"]:
+            ptb = rng.range(1, 17)
+        c["ptb"] = ptb
+        psz = rng.range(1, 3)
+        c["ptk"] = psz * ptb
+        c["kxe"] = c["k"]
+        c["pt"] = gen_message(rng, 1 if c["op"] == "lwe_sk" else c["n"], ptb, psz, "rand")
+        if not any(x for l in c["pt"] for x in l):
+            c["pt"][0][0] = 1 if ptb > 1 else -1
+        cases.append(c)
+    hl = [harness_line(i, c) for i, c in enumerate(cases)]
+    rc, out, err = ctx.run_lines(binp, ["enc"], hl, timeout=600)
+    hist = {"silently-misplaced": 0, "refused": 0, "correct": 0}
+    first = None
+    for c, line, req in zip(cases, out, hl):
+        _, st, a = parse_answer(line)
+        if st != "ok":
+            hist["refused"] += 1
+            continue
+        b, size = c["b"], c["size"]
+        if c["op"] == "lwe_sk":
+            sk = [int(x) for x in a["sk"].split(",")] if a["sk"] != "-" else []
+            ph = 0
+            for l in parse_col(a["ct"]):
+                ph = (ph << b) + l[0] + sum(x * y for x, y in zip(l[1:], sk))
+            phs = [ph]
+        else:
+            sk = [col[0] for col in parse_cols(a["sk"])] if a["sk"] != "-" else []
+            phs = phase_vals(b, sk, parse_cols(a["ct"]), c["n"])
+        # message at its own radix; allowed distance: error bound + one unit of the ct's last limb
+        limb, scale = target_limb_and_scale(c["kxe"], b)
+        ebound = int(c["bnd"] * (1 << scale) + 0.5) << (b * (size - 1 - limb))
+        s1 = 1 + sum(sum(abs(x) for x in s) for s in sk) if c["op"] != "lwe_sk" else 1 + sum(abs(x) for x in sk)
+        slack = ebound * (s1 + c["n"] + 1) + 2 if c["op"] == "glwe_pk" else ebound + 2
+        bad = False
+        for t, ph in enumerate(phs):
+            mv = val_coeff(c["ptb"], c["pt"], t)
+            d, m = torus_dist(ph, b * size, mv, c["ptb"] * len(c["pt"]))
+            # d / 2^m  vs  slack / 2^(b*size)   (plus truncation of the message to the ct precision)
+            if d > ((slack + 1) << (m - b * size)):
+                bad = True
+        if bad:
+            hist["silently-misplaced"] += 1
+            if first is None:
+                first = {"case": req, "implementation": line[:600], "oracle": "phase != message at the plaintext's own radix",
+                         "rerun": f"printf '%s\\n' '{req}' | harness/target/release/pvh enc"}
+        else:
+            hist["correct"] += 1
+    ctx.cov["plaintext_radix_mismatch_probe"] = hist
+    if first is not None:
+        ctx.violation("glwe_encrypt_sk / glwe_compressed_encrypt_sk / lwe_encrypt_sk ignore the plaintext's base2k: message encrypted at the wrong position",
+                      first, True, key=MISMATCH_KEY)
 
 
 def run(ctx):
@@ -296,6 +367,10 @@ def run(ctx):
                             which = "ciphertext" if got[:1] != want[:1] else "decryption"
                             broken.append(f"model/implementation disagree on the {which}: {hl[i][:300]}")
                             ctx.cov.setdefault("first_disagreement", {"harness": hl[i], "impl": hout[i], "model": ln})
+                    un = unnormalised(c, a)
+                    if un:
+                        ctx.cov["unnormalised_decrypted_digits"] = ctx.cov.get("unnormalised_decrypted_digits", 0) + un
+                        ctx.cov["unnormalised_same_radix"] = ctx.cov.get("unnormalised_same_radix", 0) + (un if c["db"] == c["b"] else 0)
                     o = oracle(c, a)
                     if o is not None:
                         ctx.oracle_failures += 1
@@ -308,6 +383,8 @@ def run(ctx):
             ctx.cov["by_backend"] = {be: sum(1 for c in cases if c["be"] == be) for be in BES}
             ctx.cov["radix_hist"] = {str(lo): sum(1 for c in cases if lo <= c["b"] < lo + 10) for lo in (1, 11, 21, 31, 41, 51)}
             ctx.cov["cross_radix_decrypt"] = sum(1 for c in cases if c["db"] != c["b"])
+    if binp:
+        mismatch_probe(ctx, binp, rng.fork(), 60 if quick else 600)
     if witness is not None:
         ctx.violation("decryption of a fresh ciphertext is not message + bounded error at the message's position", witness, True)
     elif broken:
